@@ -53,6 +53,7 @@ def is_error_block(stmts, ti):
 class Lower:
     def __init__(self, helpers):
         self.helpers = helpers          # name -> parameter of a local lambda whose body is the error block
+        self.arity_aliases = set()
         self.who = 'WMethod'
         self.ti = None
         self.have_class = False
@@ -61,8 +62,22 @@ class Lower:
     def bad(self, msg, node):
         raise mc.Unsupported('augment_methods: %s: %s' % (msg, mc.show(node)))
 
+    def unalias(self, n):
+        """a const local holding meth_info.arity() reads as meth_info.arity()"""
+        if isinstance(n, list):
+            return [self.unalias(x) for x in n]
+        if isinstance(n, tuple):
+            if n[0] == 'id' and len(n) == 2 and n[1] in self.arity_aliases:
+                return ARITY
+            return tuple(self.unalias(x) for x in n)
+        return n
+
     def noop(self, st):
         """statements that copy a pointer / a size or keep a counter nobody reads"""
+        if (st[0] == 'decl' and st[1] in ('const auto', 'auto', 'const std::size_t', 'std::size_t') and len(st[2]) == 1 and st[2][0][1] == ARITY):
+            self.arity_aliases.add(st[2][0][0])
+            return True
+        st = self.unalias(st)
         spec_pf = ('expr', ('assign', '=', ('member', SI, 'pf', True), ('cast', 'reinterpret_cast', 'uintptr_t', ('member', ('member', SI, 'info', True), 'pf', True))))
         fixed = [
             ('expr', ('assign', '=', ('member', MI, 'info', True), ('un', '&', ('id', 'meth_info')))),
